@@ -471,7 +471,15 @@ def run(ctx: Ctx) -> None:
     # decided on the lexer's regular expressions, evaluated here under this property's id).
     from . import c08
     t148 = "a literal in a value is one token: every reference literal is taken whole by its rule (R8.8 inclusion, R8.9 leftmost-first preference)"
-    run_shared(ctx, c08.run, {"R8.8": ("R14.8", t148), "R8.9": ("R14.8", t148)})
+    # (only these two rules of C08 are evaluated, through the functions that implement them)
+    from ..lexmodel import LexModel as _LM148
+    from ..report import SubCtx as _Sub148
+
+    def _lit148(sub):
+        lm148 = _LM148(ctx.repo)
+        c08.reference_inclusion(sub, lm148)
+        c08._preferred_match(sub, lm148, thorough=ctx.tier == "thorough")
+    run_shared(ctx, _lit148, {"R8.8": ("R14.8", t148), "R8.9": ("R14.8", t148)})
 
 # ---------------------------------------------------------------------------
 
